@@ -23,6 +23,9 @@ var c11RegisteredSets = [][]string{
 	{"com.example.app:/cb", "https://app.sim/cb"},
 	{"http://app.sim/cb"},
 	{"https://app.sim/cb#frag"},
+	{"/callback"},                          // a registration that is not an absolute URI can never be a redirect target
+	{"//app.sim/cb", "https://app.sim/cb"}, // protocol-relative
+	{"/callback?tenant=1", "https://app.sim/cb"},
 }
 
 // nearMiss derives a requested redirect_uri from a registered one.
@@ -365,7 +368,7 @@ func init() {
 			minE = k.MinParamEntropy
 		}
 		nc := len(k.Clients)
-		rts := []string{"code", "token", "id_token", "id_token token", "token id_token", "code id_token", "id_token code", "code token", "token code", "code id_token token", "token id_token code", "code code", "", "bogus", "code bogus"}
+		rts := []string{"code", "token", "id_token", "id_token token", "token id_token", "code id_token", "id_token code", "code token", "token code", "code id_token token", "token id_token code", "code code", "", "bogus", "code bogus", "code CODE", "id_token ID_TOKEN", "CODE", "code Token", "code id_token CODE"}
 		str := func(n int) string { return strings.Repeat("s", n) }
 		var steps []Step
 		n := t.Range(12, 40)
